@@ -28,15 +28,21 @@ EditActs == {"access", "call_other", "set_efth", "set_dir", "set_freq", "call_un
 \* representation is whatever the library produced - the specification says nothing about it, which is the point: the next call's
 \* observation is still a function of the contents only.
 Derives == {"isel_time_list", "isel_time_scalar", "sel_dirs", "sel_dir_one", "isel_freq_slice", "sel_freq_one", "smooth", "interp", "split", "rotate",
-            "ptm3", "bbox", "oned", "times2", "concat", "expand_site", "expand_site_last", "readonly", "sortby_time_desc", "where", "scale_by_hs"}
-NeedsDir == {"sel_dirs", "sel_dir_one", "rotate", "oned", "ptm3", "bbox", "smooth", "interp"}
-NeedsTime == {"isel_time_list", "isel_time_scalar", "concat", "sortby_time_desc"}
+            "ptm3", "bbox", "oned", "times2", "concat", "expand_site", "expand_site_last", "readonly", "sortby_time_desc", "where", "scale_by_hs",
+            \* through a file and back: what a reader returns for what a writer wrote is an object like any other
+            "via_swan", "via_json", "via_netcdf", "via_octopus"}
+ViaFile == {"via_swan", "via_json", "via_netcdf", "via_octopus"}
+NeedsDir == {"sel_dirs", "sel_dir_one", "rotate", "oned", "ptm3", "bbox", "smooth", "interp"} \cup ViaFile
+NeedsTime == {"isel_time_list", "isel_time_scalar", "concat", "sortby_time_desc"} \cup ViaFile
 AddsPart == {"ptm3", "bbox"}
-AddsSite == {"expand_site", "expand_site_last"}
+AddsSite == {"expand_site", "expand_site_last", "via_octopus"}
 CanDerive(t, ds) == /\ (t \in NeedsDir => "dir" \in ds) /\ (t \in NeedsTime => "time" \in ds)
                     /\ (t \in AddsPart => "part" \notin ds) /\ (t \in AddsSite => "site" \notin ds)
+                    /\ (t \in ViaFile => ds = {"time", "freq", "dir"})       \* the file formats hold records of 2-D spectra at positions
 DimsAfter(t, ds) == CASE t = "isel_time_scalar" -> ds \ {"time"} [] t = "oned" -> ds \ {"dir"}
-                      [] t \in AddsPart -> ds \cup {"part"} [] t \in AddsSite -> ds \cup {"site"} [] OTHER -> ds
+                      [] t \in AddsPart -> ds \cup {"part"} [] t \in AddsSite -> ds \cup {"site"}
+                      [] t = "via_swan" -> ds \cup {"lat", "lon"}      \* a single location reads back as a 1 x 1 grid
+                      [] OTHER -> ds
 ASSUME REPACTS \subseteq RepActs /\ EDITACTS \subseteq EditActs /\ DERIVES \subseteq Derives
 
 VARIABLES rep,     \* representation record
